@@ -234,6 +234,7 @@ func runC07(c *core.Ctx) error {
 	checkRecursionWalkComplete(c, r6, irProg)
 	checkMemoKeyIsArgument(c, r6, irProg, pkgParser, pkgJS, pkgGen)
 	checkInsertLookupKeyAgreement(c, r6, irProg, pkgParser, pkgJS, pkgGen, pkgIR)
+	checkResetBufferNotRetained(c, r6, irProg, pkgParser, pkgJS, pkgGen, pkgIR)
 	return nil
 }
 
